@@ -24,7 +24,7 @@ NOT_PROVED = ["libm cos/sin/radians are the real functions up to rounding (C18.a
 ASSUMPTIONS = ["np.cos/np.sin/np.radians are the real functions up to rounding"]
 
 
-PROP_MODULES = ['C18', 'C18Ragged', 'C18Gen']
+PROP_MODULES = ['C18', 'C18Ragged', 'C18Gen', 'C18Combine']
 
 def nontriv(recs):
     return any(gen.nontrivial_record(r) for r in recs)
@@ -611,3 +611,15 @@ def run(ctx):
 
 # evidence: how the model is tied to the source on every run (as built, supersedes the value above)
 TIE = 'translator (eqsig/multiple.py, get_section_average -> Gen/MultipleFns; Props/C18Gen) + correspondence (exact on dyadic inputs)'
+
+
+# ---- round-7 deliveries (lw_small / tw_single3): further correspondences of models with new theorems -------------------------
+import _lw_small as _LW  # noqa: E402
+from _single3_corr import corr_single3  # noqa: E402
+_run_main_r7 = run
+
+
+def run(ctx):
+    _run_main_r7(ctx)
+    corr_single3(ctx, parts=('cluster',))
+    ctx.flush()
